@@ -62,6 +62,34 @@ def run(chk: core.Check) -> None:
         body.clear()
         toc_pos = rng.randint(0, n)
         toc = TOC(outline_level=outline)
+        # the title is not always the default plain one: styled through the API, renamed, or holding markup / several
+        # paragraphs as an office application writes it; "kept" = the index-title element is the same after fill()
+        title_kind = rng.choice(["default", "default", "api-styled", "custom-text", "markup", "two-paragraphs", "renamed"])
+        want_title = "Table of Contents"
+        if title_kind == "api-styled":
+            toc.set_toc_title("Contents", style="SectT", text_style="Contents_20_Heading")
+            want_title = "Contents"
+        elif title_kind == "custom-text":
+            toc.set_toc_title("Sommaire  général")
+            want_title = "Sommaire  général"
+        elif title_kind in ("markup", "two-paragraphs", "renamed"):
+            it = toc.get_element("text:index-body/text:index-title")
+            if it is not None:
+                if title_kind == "markup":
+                    p0 = it.get_element("text:p")
+                    p0.append(Span(" (draft)", style="T9"))
+                    want_title = "Table of Contents (draft)"
+                elif title_kind == "two-paragraphs":
+                    it.append(Paragraph("second line", style="P9"))
+                    want_title = "Table of Contentssecond line"
+                else:
+                    it.set_attribute("text:name", "Table of Contents1_Head")
+        chk.count("title", title_kind)
+
+        def title_xml(t):
+            e = t.get_element("text:index-body/text:index-title")
+            return None if e is None else etree.tostring(etree.fromstring(e.serialize().replace("<text:index-title", f'<text:index-title xmlns:text="{NS_TEXT}"', 1)), method="c14n")
+
         headers = []
         for i, (L, tx) in enumerate(zip(levels, texts)):
             if i == toc_pos:
@@ -102,13 +130,18 @@ def run(chk: core.Check) -> None:
             return [f"{num} {tx}" for (L, num), tx in zip(ref_numbering(levels_, eff), [t for L, t in zip(levels_, texts_) if L <= eff])]
 
         try:
+            title_before = title_xml(toc)
             toc.fill()
             title1, ents1 = entries_of(toc)
+            if title_xml(toc) != title_before:
+                chk.fail({**case, "title_kind": title_kind, "before": (title_before or b"").decode()[:400], "after": (title_xml(toc) or b"").decode()[:400]},
+                         "fill() did not keep the title element of the TOC as it was (text, styles, markup, name)")
+                continue
             exp1 = expect(levels, texts)
             if ents1 != exp1:
                 chk.fail({**case, "entries": ents1, "expected": exp1}, "TOC entries are not exactly the headings (level <= outline) numbered by the outline")
                 continue
-            if title1 != "Table of Contents":
+            if title1 != want_title:
                 chk.fail({**case, "title": title1}, "the TOC title was not kept")
                 continue
             xml1 = toc.serialize()
